@@ -1,6 +1,7 @@
 package main
 
 import (
+	"strconv"
 	"encoding/json"
 	"fmt"
 	"net"
@@ -14,6 +15,8 @@ import (
 	"gitee.com/xuesongtao/protoc-go-valid/valid"
 	"verif/harness/internal/gal"
 )
+
+var decimalOpts = []string{"0.1", "0.7", "2.5", "1.25", "0.3", "3.14"}
 
 func init() { drivers["C05"] = runC05 }
 
@@ -97,7 +100,16 @@ func runC05(c *Ctx) error {
 		mk := fmt.Sprintf("M%d", marker)
 		call := &walkCall{Orc: orc}
 		full := text + "|" + mk
-		if r.Chance(30) {
+		extra := ""
+		if sv, ok := v.(string); ok && strings.Contains(text, "'") && len(sv) < 90 && r.Chance(60) {
+			// a quoted rule followed by a second rule on the same value: the second one (violated by construction:
+			// no string here has 100 characters) must still be reported, whatever the first one did to get its verdict
+			marker++
+			mk2 := fmt.Sprintf("M%d", marker)
+			full += ",to=100~200|" + mk2
+			extra = fmt.Sprintf("SVerdict true %s", gal.Str(mk2))
+		}
+		if extra != "" || r.Chance(30) {
 			rv := reflect.ValueOf(v)
 			st := reflect.StructOf([]reflect.StructField{{Name: "F", Type: rv.Type(), Tag: reflect.StructTag(`valid:"` + strings.ReplaceAll(strings.ReplaceAll(full, `\`, `\\`), `"`, `\"`) + `"`)}})
 			sv := reflect.New(st).Elem()
@@ -107,7 +119,11 @@ func runC05(c *Ctx) error {
 			call.Entry, call.VarRules, call.Src = "var", []string{full}, v
 		}
 		spec := fmt.Sprintf("SFmt %s %s %s", fspec, galVal(reflect.ValueOf(v), nil), gal.Str(mk))
-		term, desc := call.caseTerm([]string{spec})
+		specs := []string{spec}
+		if extra != "" {
+			specs = append(specs, extra)
+		}
+		term, desc := call.caseTerm(specs)
 		desc["rule"] = full
 		w.Add("CW ("+term+")", desc, cell)
 		w.Count("rule." + rule)
@@ -117,6 +133,32 @@ func runC05(c *Ctx) error {
 		return fmt.Sprintf("%s:%T:%v", rule, v, err == nil)
 	}
 
+	// ---- directed catalogue: strings that other accept-functions of the standard library would judge differently
+	// (signs, exponents, blanks, radix prefixes, full-width digits, very long digit runs, separators at the ends)
+	numish := []string{"12", "+12", "-12", "012", "1_000", "0x10", "1e5", "1E5", " 12", "12 ", "12\n", "１２", "٣", "1.5", "+1.5", "-1.5", ".5", "5.", "1.5.2", "1..5",
+		"NaN", "Inf", "-0", "+0", "00", "9223372036854775807", "9223372036854775808", "18446744073709551616", "12345678901234567890123", strings.Repeat("9", 40),
+		"1,2", "1,-2", "+1,2", ",1", "1,", "1,,2", "1, 2", "1.0", "0.0", "1,2.5"}
+	for _, s := range numish {
+		emit("int", "int", s, "FInt", nil, "directed:int:"+verdictCell("int", s, "int"))
+		emit("float", "float", s, "FFloat", nil, "directed:float:"+verdictCell("float", s, "float"))
+		emit("ints", "ints", s, "(FInts "+gal.Str(",")+")", nil, "directed:ints:"+verdictCell("ints", s, "ints"))
+		emit("phone", "phone", s, "FPhone", nil, "directed:phone:"+verdictCell("phone", s, "phone"))
+	}
+	for _, s := range []string{"13812345678", "+13812345678", "13812345678 ", " 13812345678", "1381234567", "138123456789", "12812345678", "23812345678", "1３812345678", "13812345678\n",
+		"a@b.cn", "a@b", "a@b.", "@b.cn", "a@.cn", "a@b.cn ", " a@b.cn", "a@b.cn\n", "a b@c.cn", "a@b@c.cn", "a@b.c-n", "a.b-c+d@e-f.gh.ij", "中@b.cn", "a@中.cn", "A@B.CN",
+		"11010519491231002X", "11010519491231002x", "110105194912310021", "11010519491231002", "1101051949123100211", "11010519491231002Y", " 11010519491231002X", "11010519491231002X\n"} {
+		emit("phone", "phone", s, "FPhone", nil, "directed:phone:"+verdictCell("phone", s, "phone"))
+		emit("email", "email", s, "FEmail", nil, "directed:email:"+verdictCell("email", s, "email"))
+		emit("idcard", "idcard", s, "FIdCard", nil, "directed:idcard:"+verdictCell("idcard", s, "idcard"))
+	}
+	for _, d := range decimalOpts {
+		f64, _ := strconv.ParseFloat(d, 64)
+		f32v, _ := strconv.ParseFloat(d, 32)
+		for _, v := range []interface{}{float32(f32v), f64, float32(f32v) * 3, d} {
+			text := valid.GenValidKV("in", d+"/7")
+			emit("in", text, v, "(FIn "+gal.StrList([]string{d, "7"})+")", nil, "directed:in:"+verdictCell("in", v, text))
+		}
+	}
 	for i := 0; i < n; i++ {
 		// ---- phone / email / idcard
 		{
@@ -190,9 +232,11 @@ func runC05(c *Ctx) error {
 			opts := make([]string, nopt)
 			quoted := make([]string, nopt)
 			for j := range opts {
-				switch r.Intn(5) {
+				switch r.Intn(6) {
 				case 0:
 					opts[j] = fmt.Sprint(r.Range(1, 9))
+				case 5:
+					opts[j] = r.Pick(decimalOpts) // decimal options: met by float32 / float64 values below
 				case 1:
 					opts[j] = wordN(r, 1, 2) + "/" + wordN(r, 1, 2) // must be quoted
 				case 2:
@@ -204,13 +248,25 @@ func runC05(c *Ctx) error {
 			}
 			text := valid.GenValidKV("in", strings.Join(quoted, "/"))
 			var v interface{}
-			switch r.Intn(6) {
+			switch r.Intn(8) {
 			case 0:
 				v = r.Range(1, 9)
 			case 1:
 				v = float64(r.Range(1, 9)) // 1.0 renders as "1"
 			case 2:
 				v = uint8(r.Range(1, 9))
+			case 6: // a float32 that is not a dyadic fraction: its text is the SHORTEST decimal of the 32-bit value
+				f, _ := strconv.ParseFloat(r.Pick(append([]string{opts[r.Intn(nopt)]}, decimalOpts...)), 32)
+				if f == 0 {
+					f = 0.1
+				}
+				v = float32(f)
+			case 7:
+				f, _ := strconv.ParseFloat(r.Pick(append([]string{opts[r.Intn(nopt)]}, decimalOpts...)), 64)
+				if f == 0 {
+					f = 0.7
+				}
+				v = f
 			case 3:
 				v = editString(r, opts[r.Intn(nopt)])
 			default:
@@ -264,6 +320,8 @@ func runC05(c *Ctx) error {
 				v = []int{r.Range(1, 3), r.Range(1, 3), r.Range(1, 3)}
 			case 1:
 				v = []float64{1, float64(r.Range(1, 2)), 2.5}
+			case 5:
+				v = []float32{0.1, float32(r.Range(1, 3)) / 10, 0.3}
 			case 2:
 				v = []string{wordN(r, 1, 1), wordN(r, 1, 1)}
 			default:
